@@ -12,7 +12,7 @@ RULE = ('whole-table check: every key of the built-in stylesheet table (raw tabl
         '@@value/property-name; every dash-free single-word keyword of every property snippet typed as key:WORD in lower/upper/title case; keyword typed in the '
         'value scope of its property; random user tables of 1-8 entries (overriding and new keys, property- and raw-typed, no two keys equal ignoring case). '
         'Non-trivial = the key has a value / body or a keyword is typed; distinct by (key or table, syntax, scope)')
-ASSUMPTIONS = ['quoted strings in user alternatives contain no escaped quote (the abbreviation syntax has no escape inside a string: a snippet value is an abbreviation value)',
+ASSUMPTIONS = [               'quoted strings in user alternatives contain no escaped quote (the abbreviation syntax has no escape inside a string: a snippet value is an abbreviation value)',
                'expected text is derived from emmet/snippets/css.py split on "|" by the harness; a value of the form name or name:values is a property snippet, anything else raw',
                'both sides are normalised: tabstops ${n:ph} -> ph, blank runs collapsed, 1.0 == 1, colours compared by value',
                'under @@section a property key may give nothing or a raw body (fuzzy match), under @@property the converse; only "must not give its own line" is judged',
@@ -205,7 +205,9 @@ def user_table(rng, builtin_keys):
  
         pre = rng.choice(['vp-', 'vp-', '--vp-', '-webkit-vp-', 'vp--', '-vp-'])      # custom properties and vendor prefixes are property names too
         if r < 0.35:
-            v = pre + '%s:%s' % (tag, '|'.join(rng.sample(['foo', 'bar', 'baz-qux', '${1:ph}', '10px', 'a b', '#fc0', '"Helvetica Neue", Arial, sans-serif', "'x y' z", '"\\f101"', '"q" "r"'], rng.randint(1, 3))))
+            v = pre + '%s:%s' % (tag, '|'.join(rng.sample(['foo', 'bar', 'baz-qux', '${1:ph}', '10px', 'a b', '#fc0', '"Helvetica Neue", Arial, sans-serif', "'x y' z", '"\\f101"', '"q" "r"',
+                                                          'repeat(auto-fill, minmax(${1:200px}, 1fr))', 'image-set(url(${1:a}) 1x)', 'f(g(h(${1:x})), k)', 'min(1px, max(2px, 3px))',
+                                                          'url(a.png) no-repeat', 'x.y z', 'rgb(0,0,0)', 'u(v.w)'], rng.randint(1, 3))))
         elif r < 0.55:
             v = pre + tag
         elif r < 0.8:
@@ -282,6 +284,14 @@ def run_shard(desc, ctx):
                     else:
                         ctx.seen((repr(sorted(ut.items())), key, syntax))
                         ctx.state('user', '%s %s' % (kind, 'override' if key in tbl else 'new'))
+                        alts = classify(value)[2] if kind == 'property' else []
+                        if alts and '${' in alts[0]:
+                            # "its first listed value": a value that carries tabstops of its own comes out with exactly those
+                            want = [m or '' for m in re.findall(r'\$\{\d+(?::([^{}]*))?\}', alts[0])]
+                            have = [m[1] for m in RE_MARK.findall(r[1])]
+                            ctx.mon('oracle:own-tabstops-of-first-value')
+                            if have != want:
+                                ctx.violation('first-value-tabstops-differ', case, {'written': want, 'printed': have, 'output': r[1][:200]})
                     # scope restriction on user snippets too
                     if t % 4 < 2:
                         ctx.mon('oracle:scope')
